@@ -127,6 +127,25 @@ pub fn scenario(g: &mut G, ctx: &RunCtx) -> RunReport {
         3 => Some(("text/plain; charset=".into(), None)),
         _ => {
             let l = *g.pick(LABELS);
+            // (no draw) every encoding is known under several labels (the WHATWG table), and six labels name the
+            // "replacement" encoding, whose decoding of anything is one U+FFFD: known labels all the same
+            let aliases: &[&str] = match l {
+                "windows-1252" => &["latin1", "ascii", "l1", "cp1252", "iso-8859-1", "us-ascii", "iso88591"],
+                "UTF-8" => &["utf8", "unicode-1-1-utf-8", "x-unicode20utf8", "unicode11utf8"],
+                "Shift_JIS" => &["sjis", "x-sjis", "ms_kanji", "windows-31j", "csshiftjis"],
+                "EUC-KR" => &["ks_c_5601-1987", "windows-949", "korean", "iso-ir-149"],
+                "ISO-8859-2" => &["latin2", "l2", "csisolatin2"],
+                "GBK" => &["chinese", "gb2312", "x-gbk", "iso-ir-58"],
+                "UTF-16LE" => &["utf-16", "unicode", "ucs-2", "csunicode"],
+                "macintosh" => &["iso-2022-kr", "hz-gb-2312", "iso-2022-cn", "iso-2022-cn-ext", "csiso2022kr", "replacement"],
+                _ => &[],
+            };
+            let l = if !aliases.is_empty() && payload.len() % 2 == 0 {
+                g.probe("charset-named-by-an-alias-label");
+                aliases[payload.len() / 2 % aliases.len()]
+            } else {
+                l
+            };
             let e = Encoding::for_label(l.as_bytes()).unwrap();
             let lab = mix_case(g, l);
             let sep = *g.pick(&["; ", ";", ";  "]);
